@@ -141,7 +141,7 @@ PROPS = {
         suite="C16", props=["C16"],
         level_text="C16_contained, C16_passthrough, C16_router, C16_first_value_wins, C16_inner_before_after, C16_after_phase, C16_no_raise_no_recovery, C16_group_notfound over every handler term and raise table.",
         level_note="user functions are symbolic (raise tables); panic(nil) excluded; a panicking matcher or recovery function is outside the property."),
-    "C17": rt(300, 5000, ["handle-rejected"],
+    "C17": rt(300, 1500, ["handle-rejected"],
         "tables x Handle calls with valid/duplicate/reserved/unknown methods in every position (45%), malformed patterns (25%), patterns equal up to names; dump + Routes + witnesses + Allow + OPTIONS * before and after every call",
         props=["C17"],
         level_text="C17_check_methods_ok_iff (a method list is accepted iff all methods are known, not reserved, not registered and not repeated), C17_duplicate_rejected, C17_repeated_method_rejected, C17_add_methods_rejects_before_changing; a rejected call returns an error value and no new state in the model (tree_add : res tree).",
